@@ -420,16 +420,26 @@ def r7(ctx, facts):
         r.instance("type_check-called", len(tcs) >= 1, "poll_next must type-check each fresh page (ColumnIterator::type_check::<RowT>)", b.span)
         # the `?` on the type_check result: Continue edge
         brs = [c for c in b.calls_to("core::ops::try_trait::Try::branch") if any(t.dest[0] in backward_slice(b, c.args[0])[0] for t in tcs)]
+        # ... or an explicit `if let Err(e) = it.type_check() { return .. }` / `match`: the check's own Result is known to be Ok
+        roots = set()
+        for t in tcs:
+            roots.add(df.disc_root(df.canon.path(t.dest)))
+            for bb0, c in b.calls():
+                if bb0 in b.live_blocks and (c.decl or "").endswith("::map_err") and c.args and c.args[0][0] in ("c", "m") and t.dest[0] in backward_slice(b, c.args[0])[0]:
+                    roots.add(df.disc_root(df.canon.path(c.dest)))
+
+        def check_passed(stt):
+            return any(in_set(stt.get(("disc", (br.dest[0], ()))), {0}) for br in brs) or any(in_set(stt.get(("disc", rt)), {0}) for rt in roots)
         for bb, j, st in stores:
             stt = df.state_before_stmt(bb, j) or {}
-            passed = any(in_set(stt.get(("disc", (br.dest[0], ()))), {0}) for br in brs)
+            passed = check_passed(stt)
             r.instance("checked-flag-set-after-success", passed,
                        "current_page_typechecked = true is stored where the type check of this page has not (yet) succeeded: after a failed check the remaining rows of the page would be deserialized unchecked", b.stmt_span(st))
         des = [c for bb0, c in b.calls() if bb0 in b.live_blocks and c.decl == "scylla_cql_core::deserialize::row::DeserializeRow::deserialize"]
         for c in des:
             stt = df.state_in.get(c.bb) or {}
             okd = any(k[0] == "val" and is_flag(k[1]) and in_set(v, {1}) for k, v in stt.items()) or \
-                any(in_set(stt.get(("disc", (br.dest[0], ()))), {0}) for br in brs)
+                check_passed(stt)
             r.instance("rows-only-from-checked-page", okd, "a row is deserialized where the page is not known to be type-checked", c.span)
     if not found:
         raise AnchorLost("no type_check / checked-flag store found in TypedRowStream::poll_next")
